@@ -660,6 +660,74 @@ theorem fieldRT_byte_array (P : Profile) (hwf : ProfileWF P = true) (dm : DefMsg
     exact this xs hx
   rw [hparse]
 
+/-! ### arrays shorter than the profile length, and nil arrays written as fillers -/
+
+/-- **An array of unsigned elements no longer than the profile length** (or a nil array written
+    as a filler) comes back padded with the base type's invalid value to the profile length. -/
+theorem fieldRTG_unsigned_array (P : Profile) (hwf : ProfileWF P = true) (dm : DefMsg) (pf : PField) (w : Nat)
+    (xs : Option (List Nat)) (hgf : P.getField dm.global pf.num = some pf)
+    (hnat : tcKind pf.tcode = .native) (harr : tcArray pf.tcode = true)
+    (hw : (w = 1 ∧ (tcBase pf.tcode = Base.enum ∨ tcBase pf.tcode = Base.uint8 ∨ tcBase pf.tcode = Base.uint8z)) ∨
+          (w = 2 ∧ (tcBase pf.tcode = Base.uint16 ∨ tcBase pf.tcode = Base.uint16z)) ∨
+          (w = 4 ∧ (tcBase pf.tcode = Base.uint32 ∨ tcBase pf.tcode = Base.uint32z)))
+    (hlen : (xs.getD []).length ≤ pf.length) (hx : ∀ x ∈ xs.getD [], x < 256 ^ w) (inv : Val) :
+    FieldRTG P dm pf (.sl (.u (8 * w))) (.us xs) inv (padVal pf (.us xs)) := by
+  intro msg ts part _ hpart
+  have hw' : (w = 1 ∧ (tcBase pf.tcode = Base.enum ∨ tcBase pf.tcode = Base.byte ∨ tcBase pf.tcode = Base.uint8 ∨
+      tcBase pf.tcode = Base.uint8z)) ∨ (w = 2 ∧ (tcBase pf.tcode = Base.uint16 ∨ tcBase pf.tcode = Base.uint16z)) ∨
+      (w = 4 ∧ (tcBase pf.tcode = Base.uint32 ∨ tcBase pf.tcode = Base.uint32z)) := by
+    rcases hw with ⟨h1, h | h | h⟩ | h | h
+    · exact Or.inl ⟨h1, Or.inl h⟩
+    · exact Or.inl ⟨h1, Or.inr (Or.inr (Or.inl h))⟩
+    · exact Or.inl ⟨h1, Or.inr (Or.inr (Or.inr h))⟩
+    · exact Or.inr (Or.inl h)
+    · exact Or.inr (Or.inr h)
+  obtain ⟨_, hns, hsize⟩ := unsigned_slot_width (tcBase pf.tcode) w hw'
+  rw [writeField_pad dm.arch pf w xs harr hns hnat hsize hlen] at hpart
+  have hinvlt : Base.invalidNat (tcBase pf.tcode) < 256 ^ w := by
+    rcases hw with ⟨h1, h | h | h⟩ | ⟨h1, h | h⟩ | ⟨h1, h | h⟩ <;> (subst h1; rw [h]; decide)
+  have hfull := fieldRT_unsigned_array P hwf dm pf w
+    (xs.getD [] ++ List.replicate (pf.length - (xs.getD []).length) (Base.invalidNat (tcBase pf.tcode)))
+    hgf hnat harr hw (by simp only [List.length_append, List.length_replicate]; omega)
+    (by
+      intro x hxm
+      rw [List.mem_append] at hxm
+      rcases hxm with h | h
+      · exact hx x h
+      · rw [(List.mem_replicate.mp h).2]; exact hinvlt)
+  have e : padVal pf (.us xs) = .us (some (xs.getD [] ++
+      List.replicate (pf.length - (xs.getD []).length) (Base.invalidNat (tcBase pf.tcode)))) := by
+    simp only [padVal, harr, ↓reduceIte]
+  rw [e]
+  exact hfull msg ts part hpart
+
+/-- the same for byte arrays -/
+theorem fieldRTG_byte_array (P : Profile) (hwf : ProfileWF P = true) (dm : DefMsg) (pf : PField)
+    (xs : Option (List Nat)) (hgf : P.getField dm.global pf.num = some pf)
+    (hnat : tcKind pf.tcode = .native) (harr : tcArray pf.tcode = true) (hb : tcBase pf.tcode = Base.byte)
+    (hlen : (xs.getD []).length ≤ pf.length) (hx : ∀ x ∈ xs.getD [], x < 256) (inv : Val) :
+    FieldRTG P dm pf (.sl (.u 8)) (.us xs) inv (padVal pf (.us xs)) := by
+  intro msg ts part _ hpart
+  have hns : tcBase pf.tcode ≠ Base.string := by rw [hb]; decide
+  have hsize : Base.size (tcBase pf.tcode) = 1 := by rw [hb]; decide
+  have hp := writeField_pad dm.arch pf 1 xs harr hns hnat hsize hlen
+  rw [show (8 * 1 : Nat) = 8 by rfl] at hp
+  rw [hp] at hpart
+  have hfull := fieldRT_byte_array P hwf dm pf
+    (xs.getD [] ++ List.replicate (pf.length - (xs.getD []).length) (Base.invalidNat (tcBase pf.tcode)))
+    hgf hnat harr hb (by simp only [List.length_append, List.length_replicate]; omega)
+    (by
+      intro x hxm
+      rw [List.mem_append] at hxm
+      rcases hxm with h | h
+      · exact hx x h
+      · rw [(List.mem_replicate.mp h).2, hb]; decide)
+  have e : padVal pf (.us xs) = .us (some (xs.getD [] ++
+      List.replicate (pf.length - (xs.getD []).length) (Base.invalidNat (tcBase pf.tcode)))) := by
+    simp only [padVal, harr, ↓reduceIte]
+  rw [e]
+  exact hfull msg ts part hpart
+
 /-! ### the empty string as a filler -/
 
 theorem utf8Valid_zeros (n : Nat) : utf8Valid (List.replicate n 0) = true := by
@@ -830,6 +898,66 @@ theorem valRT_sound (P : Profile) (hwf : ProfileWF P = true) (dm : DefMsg) (pf :
     exact fieldRT_lng P hwf dm pf _ hgf h.1 h.2.1 h.2.2
   · cases h
 
+/-- arrays of unsigned elements of any length up to the profile's, and nil arrays (written as
+    fillers): read back padded with invalid values -/
+def arrRT (pf : PField) (k : SlotKind) (v : Val) : Bool :=
+  match k, v with
+  | .sl (.u 8), .us xs =>
+    tcKind pf.tcode == .native && tcArray pf.tcode && decide ((xs.getD []).length ≤ pf.length) &&
+      (xs.getD []).all (fun x => decide (x < 256)) &&
+      (tcBase pf.tcode == Base.enum || tcBase pf.tcode == Base.uint8 || tcBase pf.tcode == Base.uint8z ||
+        tcBase pf.tcode == Base.byte)
+  | .sl (.u 16), .us xs =>
+    tcKind pf.tcode == .native && tcArray pf.tcode && decide ((xs.getD []).length ≤ pf.length) &&
+      (xs.getD []).all (fun x => decide (x < 65536)) &&
+      (tcBase pf.tcode == Base.uint16 || tcBase pf.tcode == Base.uint16z)
+  | .sl (.u 32), .us xs =>
+    tcKind pf.tcode == .native && tcArray pf.tcode && decide ((xs.getD []).length ≤ pf.length) &&
+      (xs.getD []).all (fun x => decide (x < 4294967296)) &&
+      (tcBase pf.tcode == Base.uint32 || tcBase pf.tcode == Base.uint32z)
+  | _, _ => false
+
+theorem arrRT_sound (P : Profile) (hwf : ProfileWF P = true) (dm : DefMsg) (pf : PField) (k : SlotKind) (v : Val)
+    (hgf : P.getField dm.global pf.num = some pf) (h : arrRT pf k v = true) (inv : Val) :
+    FieldRTG P dm pf k v inv (padVal pf v) := by
+  unfold arrRT at h
+  split at h
+  · simp only [Bool.and_eq_true, beq_iff_eq, decide_eq_true_eq, Bool.or_eq_true, List.all_eq_true] at h
+    obtain ⟨⟨⟨⟨h1, h2⟩, h3⟩, h4⟩, h5⟩ := h
+    rcases h5 with ((h | h) | h) | h
+    · exact fieldRTG_unsigned_array P hwf dm pf 1 _ hgf h1 h2 (Or.inl ⟨rfl, Or.inl h⟩) h3 (fun x hx => by have := h4 x hx; omega) inv
+    · exact fieldRTG_unsigned_array P hwf dm pf 1 _ hgf h1 h2 (Or.inl ⟨rfl, Or.inr (Or.inl h)⟩) h3
+        (fun x hx => by have := h4 x hx; omega) inv
+    · exact fieldRTG_unsigned_array P hwf dm pf 1 _ hgf h1 h2 (Or.inl ⟨rfl, Or.inr (Or.inr h)⟩) h3
+        (fun x hx => by have := h4 x hx; omega) inv
+    · exact fieldRTG_byte_array P hwf dm pf _ hgf h1 h2 h h3 (fun x hx => h4 x hx) inv
+  · simp only [Bool.and_eq_true, beq_iff_eq, decide_eq_true_eq, Bool.or_eq_true, List.all_eq_true] at h
+    obtain ⟨⟨⟨⟨h1, h2⟩, h3⟩, h4⟩, h5⟩ := h
+    exact fieldRTG_unsigned_array P hwf dm pf 2 _ hgf h1 h2 (Or.inr (Or.inl ⟨rfl, h5⟩)) h3
+      (fun x hx => by have := h4 x hx; omega) inv
+  · simp only [Bool.and_eq_true, beq_iff_eq, decide_eq_true_eq, Bool.or_eq_true, List.all_eq_true] at h
+    obtain ⟨⟨⟨⟨h1, h2⟩, h3⟩, h4⟩, h5⟩ := h
+    exact fieldRTG_unsigned_array P hwf dm pf 4 _ hgf h1 h2 (Or.inr (Or.inr ⟨rfl, h5⟩)) h3
+      (fun x hx => by have := h4 x hx; omega) inv
+  · cases h
+
+/-- on the values of `valRT` padding changes nothing: scalars are not arrays, and the arrays of
+    `valRT` have the profile length -/
+theorem valRT_pad (pf : PField) (k : SlotKind) (v : Val) (h : valRT pf k v = true) : padVal pf v = v := by
+  cases v with
+  | us xs =>
+    cases xs with
+    | none => unfold valRT at h; split at h <;> first | cases h | (rename_i e; cases e)
+    | some ys =>
+      apply padVal_full
+      unfold valRT at h
+      split at h
+      all_goals first
+        | cases h
+        | (rename_i e; cases e; simp only [Bool.and_eq_true, decide_eq_true_eq] at h; omega)
+        | (rename_i e; cases e; done)
+  | _ => unfold padVal; split <;> rfl
+
 /-- the empty string in a string field: what a group definition writes for a member that leaves the
     field unset -/
 def strFillerB (pf : PField) (k : SlotKind) (v : Val) : Bool :=
@@ -841,7 +969,7 @@ def strFillerB (pf : PField) (k : SlotKind) (v : Val) : Bool :=
 def msgDomB (pm : PMsg) (m : Msg) (w : PField → Bool) : Bool :=
   (pm.fields.all fun pf => !w pf ||
     match pm.layout[pf.sindex]?, m.vals[pf.sindex]? with
-    | some k, some v => valRT pf k v || (isInvalidVal pm pf.sindex v && strFillerB pf k v)
+    | some k, some v => valRT pf k v || arrRT pf k v || (isInvalidVal pm pf.sindex v && strFillerB pf k v)
     | _, _ => true) &&
   (List.range m.vals.length).all fun i =>
     match m.vals[i]? with
@@ -856,7 +984,7 @@ theorem msgDomB_sound (P : Profile) (hwf : ProfileWF P = true) (arch : Endian) (
   obtain ⟨h1, h2⟩ := h
   have hmw := msg?_wf P hwf m.num pm hpm
   have key : ∀ pf ∈ pm.fields, W pf → ∀ k v, pm.layout[pf.sindex]? = some k → m.vals[pf.sindex]? = some v →
-      valRT pf k v = true ∨ (isInvalidVal pm pf.sindex v = true ∧ strFillerB pf k v = true) := by
+      (valRT pf k v = true ∨ arrRT pf k v = true) ∨ (isInvalidVal pm pf.sindex v = true ∧ strFillerB pf k v = true) := by
     intro pf hp hW k v hk hv
     have := h1 pf hp
     rw [hw pf hW, hk, hv] at this
@@ -864,19 +992,24 @@ theorem msgDomB_sound (P : Profile) (hwf : ProfileWF P = true) (arch : Endian) (
   refine ⟨?_, ?_, ?_⟩
   · intro pf hp hW k v hk hv hiv fs
     have hgf := getField_of_mem P m.num pm hpm hmw pf hp hkn
-    rcases key pf hp hW k v hk hv with h | h
-    · exact valRT_sound P hwf (defOf arch m.num fs) pf k v hgf h
+    rcases key pf hp hW k v hk hv with (h | h) | h
+    · rw [valRT_pad pf k v h]
+      exact (valRT_sound P hwf (defOf arch m.num fs) pf k v hgf h).toG _
+    · exact arrRT_sound P hwf (defOf arch m.num fs) pf k v hgf h _
     · rw [hiv] at h; cases h.1
   · intro pf hp hW k v hk hv hiv fs
     have hgf := getField_of_mem P m.num pm hpm hmw pf hp hkn
-    rcases key pf hp hW k v hk hv with h | h
-    · exact (valRT_sound P hwf (defOf arch m.num fs) pf k v hgf h).toI v
+    rcases key pf hp hW k v hk hv with (h | h) | h
+    · rw [valRT_pad pf k v h]
+      exact (valRT_sound P hwf (defOf arch m.num fs) pf k v hgf h).toG v
+    · exact arrRT_sound P hwf (defOf arch m.num fs) pf k v hgf h v
     · have hf := h.2
       unfold strFillerB at hf
       simp only [Bool.and_eq_true, beq_iff_eq, Bool.not_eq_true'] at hf
       obtain ⟨⟨⟨⟨e1, e2⟩, e3⟩, e4⟩, e5⟩ := hf
       subst e1 e2
-      exact fieldRTI_string_empty P hwf (defOf arch m.num fs) pf hgf e3 e4 e5
+      rw [padVal_scalar pf _ e4]
+      exact (fieldRTI_string_empty P hwf (defOf arch m.num fs) pf hgf e3 e4 e5).toG
   · intro i v hv hiv
     have hi : i < m.vals.length := (List.getElem?_eq_some_iff.mp hv).1
     have := h2 i hi
@@ -966,12 +1099,26 @@ theorem fileShapeB_sound (c : Container) (f : FileSt) (h : fileShapeB c f = true
     type that `File` keeps itself -/
 theorem gen_containers_ok : ∀ c ∈ Gen.profile.containers, containerOK c = true := by decide +kernel
 
+/-- what padding is: an array value followed by invalid values of its base type up to the profile
+    length (a nil array counts as empty); any other value unchanged. This is the normal form behind
+    "arrays are compared up to trailing invalid padding". -/
+theorem padVal_spec (pf : PField) (v : Val) :
+    padVal pf v = v ∨ ∃ xs, v = .us xs ∧ padVal pf v = .us (some (xs.getD [] ++
+      List.replicate (pf.length - (xs.getD []).length) (Base.invalidNat (tcBase pf.tcode)))) := by
+  unfold padVal
+  split
+  · cases v with
+    | us xs => exact Or.inr ⟨xs, rfl, rfl⟩
+    | _ => exact Or.inl rfl
+  · exact Or.inl rfl
+
 /-- **C06, whole File (regenerated profile).** For every File with `fileRTB`, of the typed API's
     shape, that `Encode` accepts in either byte order: decoding the bytes written — followed by
     anything, through any reader, with any option set and any package state — succeeds and returns
     the same file_id, file_creator, timestamp_correlation and container, and in every slot the File's
-    own messages in order, each passed through `expandComponents` where its type has component fields
-    (with the package-level accumulators threaded in file order). -/
+    own messages in order — each with the array fields its record carries padded with invalid values
+    to the profile length (`wireFile`, `padVal_spec`), and passed through `expandComponents` where
+    its type has component fields (with the package-level accumulators threaded in file order). -/
 theorem decode_encode_content (arch : Endian) (f f' : FileSt) (bs : Bytes)
     (h : encode Gen.profile arch f = .ok bs f') (hdom : fileRTB Gen.profile f = true)
     (hsmall : bs.length < 4294967296)
@@ -980,16 +1127,19 @@ theorem decode_encode_content (arch : Endian) (f f' : FileSt) (bs : Bytes)
     ∃ (i : Nat) (F' : FileSt), f.cidx = some i ∧
       (decodeSpec Gen.profile o .full g (bs ++ tail) stop).1.success ∧
       (decodeSpec Gen.profile o .full g (bs ++ tail) stop).1.st.file = some F' ∧
-      F'.fileId = f.fileId ∧ F'.creator = f.creator ∧ F'.tscorr = f.tscorr ∧ F'.cidx = f.cidx ∧
+      F'.fileId = wire1 Gen.profile f.fileId ∧ F'.creator = f.creator.map (wire1 Gen.profile) ∧
+      F'.tscorr = f.tscorr.map (wire1 Gen.profile) ∧ F'.cidx = f.cidx ∧
       F'.fieldDescs = [] ∧ F'.devIds = [] ∧
-      F'.slots = (expandSlots Gen.profile g (((Gen.profile.containers.getD i default).slots.zip f.slots).map slotMsgs)).1 ∧
+      F'.slots = (expandSlots Gen.profile g (((Gen.profile.containers.getD i default).slots.zip
+        (wireFile Gen.profile (Gen.profile.containers.getD i default) f).slots).map slotMsgs)).1 ∧
       (decodeSpec Gen.profile o .full g (bs ++ tail) stop).1.st.glob =
-        (expandSlots Gen.profile g (((Gen.profile.containers.getD i default).slots.zip f.slots).map slotMsgs)).2 :=
+        (expandSlots Gen.profile g (((Gen.profile.containers.getD i default).slots.zip
+          (wireFile Gen.profile (Gen.profile.containers.getD i default) f).slots).map slotMsgs)).2 :=
   Fit.decode_encode_content Gen.profile Fit.Props.C01.gen_wf gen_containers_ok arch f f' bs h
     (fileRTB_sound Gen.profile Fit.Props.C01.gen_wf arch f hdom) hsmall
     (fun i hi => fileShapeB_sound _ f (hsh i hi)) o g tail stop
 
-/-- **C06, whole File, no component fields: `Decode (Encode f) = f`.** -/
+/-- **C06, whole File, no component fields: `Decode (Encode f) = f` up to array padding.** -/
 theorem decode_encode_identity (arch : Endian) (f f' : FileSt) (bs : Bytes)
     (h : encode Gen.profile arch f = .ok bs f') (hdom : fileRTB Gen.profile f = true)
     (hsmall : bs.length < 4294967296)
@@ -1001,8 +1151,10 @@ theorem decode_encode_identity (arch : Endian) (f f' : FileSt) (bs : Bytes)
     ∃ F' : FileSt,
       (decodeSpec Gen.profile o .full g (bs ++ tail) stop).1.success ∧
       (decodeSpec Gen.profile o .full g (bs ++ tail) stop).1.st.file = some F' ∧
-      F'.fileId = f.fileId ∧ F'.creator = f.creator ∧ F'.tscorr = f.tscorr ∧ F'.cidx = f.cidx ∧
-      F'.fieldDescs = [] ∧ F'.devIds = [] ∧ F'.slots = f.slots ∧
+      F'.fileId = wire1 Gen.profile f.fileId ∧ F'.creator = f.creator.map (wire1 Gen.profile) ∧
+      F'.tscorr = f.tscorr.map (wire1 Gen.profile) ∧ F'.cidx = f.cidx ∧
+      F'.fieldDescs = [] ∧ F'.devIds = [] ∧
+      (∀ i, f.cidx = some i → F'.slots = (wireFile Gen.profile (Gen.profile.containers.getD i default) f).slots) ∧
       (decodeSpec Gen.profile o .full g (bs ++ tail) stop).1.st.glob = g :=
   Fit.decode_encode_identity Gen.profile Fit.Props.C01.gen_wf gen_containers_ok arch f f' bs h
     (fileRTB_sound Gen.profile Fit.Props.C01.gen_wf arch f hdom) hsmall
@@ -1018,13 +1170,21 @@ def mkMsg (n : Nat) (sets : List (Nat × Val)) : Msg :=
 
 /-- a settings file: two user_profile messages with different valid fields — a name in the first
     only — so the slice gets a union definition and each record carries invalid fillers (among them
-    the empty string); one hrm_profile message; one device_settings message with two full-length arrays -/
+    the empty string); one hrm_profile message; two device_settings messages — the first with an array
+    shorter than the profile length and a full-length one, the second without either, so that both are
+    written as fillers in its record -/
 def exampleSettings (sz : Nat) : FileSt :=
   { hdr := { size := sz, proto := 0x20, profile := 2115, dtype := fitTag },
     fileId := mkMsg 0 [(0, .u 2), (1, .u 1), (2, .u 7), (3, .u 12345), (4, .t 1000 0 0)],
     cidx := some 1,
     slots := [[mkMsg 3 [(1, .s [65, 66]), (2, .u 1), (3, .u 30)], mkMsg 3 [(3, .u 41), (4, .u 180)]], [mkMsg 4 [(0, .u 1)]], [], [],
-              [mkMsg 2 [(2, .us (some [3600, 7200])), (8, .us (some [513]))]]] }
+              [mkMsg 2 [(2, .us (some [3600])), (8, .us (some [513]))], mkMsg 2 [(0, .u 1)]]] }
+
+/-- what comes back for `exampleSettings`: the arrays padded with invalid values -/
+def exampleSettingsBack : List (List Msg) :=
+  [[mkMsg 3 [(1, .s [65, 66]), (2, .u 1), (3, .u 30)], mkMsg 3 [(3, .u 41), (4, .u 180)]], [mkMsg 4 [(0, .u 1)]], [], [],
+   [mkMsg 2 [(2, .us (some [3600, 4294967295])), (8, .us (some [513]))],
+    mkMsg 2 [(0, .u 1), (2, .us (some [4294967295, 4294967295])), (8, .us (some [65535]))]]]
 
 def encodesSmall (arch : Endian) (f : FileSt) : Bool :=
   match encode Gen.profile arch f with
@@ -1035,11 +1195,11 @@ set_option maxRecDepth 100000 in
 /-- the premises of `decode_encode_identity` are satisfiable: for this File, with a 12-byte or a
     14-byte header and in both byte orders,
     `Encode` succeeds, the File is in the domain and of the typed shape — hence `Decode` of the
-    bytes, with anything after them, returns its slots unchanged -/
+    bytes, with anything after them, returns its slots with the arrays padded (`exampleSettingsBack`) -/
 example (sz : Nat) (hsz : sz = 12 ∨ sz = 14) (arch : Endian) (o : Opts) (g : Globals) (tail : Bytes) (stop : Stop) :
     ∃ bs f' F', encode Gen.profile arch (exampleSettings sz) = .ok bs f' ∧
       (decodeSpec Gen.profile o .full g (bs ++ tail) stop).1.st.file = some F' ∧
-      F'.fileId = (exampleSettings sz).fileId ∧ F'.slots = (exampleSettings sz).slots := by
+      F'.fileId = (exampleSettings sz).fileId ∧ F'.slots = exampleSettingsBack := by
   have h1 : encodesSmall arch (exampleSettings sz) = true := by
     rcases hsz with rfl | rfl <;> cases arch <;> decide +kernel
   unfold encodesSmall at h1
@@ -1059,6 +1219,10 @@ example (sz : Nat) (hsz : sz = 12 ∨ sz = 14) (arch : Endian) (o : Opts) (g : G
       (fun i h => by rw [hi i h]; rcases hsz with rfl | rfl <;> decide +kernel)
       (fun i h => by rw [hi i h]; rcases hsz with rfl | rfl <;> decide +kernel)
       (by rcases hsz with rfl | rfl <;> decide +kernel) o g tail stop
-    exact ⟨bs, f', F', rfl, hF, h3, h9⟩
+    have hw1 : wire1 Gen.profile (exampleSettings sz).fileId = (exampleSettings sz).fileId := by
+      rcases hsz with rfl | rfl <;> decide +kernel
+    have hw2 : (wireFile Gen.profile (Gen.profile.containers.getD 1 default) (exampleSettings sz)).slots = exampleSettingsBack := by
+      rcases hsz with rfl | rfl <;> decide +kernel
+    exact ⟨bs, f', F', rfl, hF, h3.trans hw1, (h9 1 rfl).trans hw2⟩
 
 end Fit.Props.C06
